@@ -44,6 +44,12 @@ MUTANTS = {
         """                         for line in text.splitlines() if line.strip())""",
         """                         for line in text.splitlines())""")],
         why='re-introduces F9: blank prompt lines turn a block directive into an inline one'),
+    'c12_revert_f10': dict(prop='C12', edits=[(UI,
+        """                sys.path.pop(real_index)
+                warnings.warn('\\n'.join(msg_parts))""",
+        """                warnings.warn('\\n'.join(msg_parts))
+                sys.path.pop(real_index)""")],
+        why='re-introduces F10: the sys.path-changed warning is raised (under -W error) before the temporary entry is removed'),
     # ------------------------------------------------------------------ C01
     'c01_no_expandtabs': dict(prop='C01', edits=[(PA,
         """        string = string.expandtabs()""",
